@@ -321,10 +321,87 @@ def run_batch(c):
     return {"rows": 4 * len(obs) * len(srcs), "problems": problems[:4], "n_inside": len(bodies), "n_surface": 0}
 
 
+CUSTOM_POL = np.array((0.3, -0.5, 0.8))
+CUSTOM_R = 0.6
+CUSTOM_FORMS = ["method", "toplevel", "sensor", "collection", "mixed_list_first", "mixed_list_last", "two_customs", "sumup"]
+
+
+def _custom_sphere(field, observers):
+    """a user-written magnet model: the uniformly magnetised sphere in closed form, all four outputs defined"""
+    from scipy.constants import mu_0 as MU0
+
+    x = np.asarray(observers, float)
+    r = np.linalg.norm(x, axis=1)
+    ins = r < CUSTOM_R
+    J = np.where(ins[:, None], CUSTOM_POL, 0.0)
+    rr = np.where(ins, 1.0, r)
+    dip = (3 * (x @ CUSTOM_POL)[:, None] * x / rr[:, None] ** 5 - CUSTOM_POL / rr[:, None] ** 3) * CUSTOM_R ** 3 / 3
+    B = np.where(ins[:, None], 2 * CUSTOM_POL / 3, dip)
+    return {"B": B, "H": (B - J) / MU0, "J": J, "M": J / MU0}[field]
+
+
+def run_custom(c):
+    """CustomSource whose field function defines B, H, J and M: the four outputs of every interface must be what the function
+    returns (rotated into the observer frame), hence mutually consistent"""
+    import magpylib as magpy
+    from scipy.spatial.transform import Rotation as R
+
+    pose = POSES[c["pose"]]
+    Rm = R.from_rotvec(pose[1])
+    src = magpy.misc.CustomSource(field_func=_custom_sphere, position=pose[0], orientation=Rm)
+    g = np.array([-0.9, -0.45, -0.2, 0.0, 0.25, 0.5, 1.1])
+    local = np.array([(x, y, z) for x in g for y in g for z in g]) + (0.013, -0.007, 0.011)
+    obs = Rm.apply(local) + np.array(pose[0])
+    cub = magpy.magnet.Cuboid(dimension=(0.3, 0.2, 0.4), polarization=(0.1, 0.2, -0.3), position=(5, 4, 3))
+    circ = magpy.current.Circle(diameter=0.7, current=1.2, position=(-4, 5, 2))
+    mu0 = magpy.mu_0
+    out = {}
+    form = c["form"]
+    for f in "BHJM":
+        fn = getattr(magpy, "get" + f)
+        if form == "method":
+            v = getattr(src, "get" + f)(obs)
+        elif form == "toplevel":
+            v = fn(src, obs)
+        elif form == "sensor":
+            v = getattr(magpy.Sensor(pixel=obs), "get" + f)(src)
+        elif form == "collection":
+            v = getattr(magpy.Collection(src.copy()), "get" + f)(obs)
+        elif form == "mixed_list_first":
+            v = fn([src, cub, circ], obs)[0]
+        elif form == "mixed_list_last":
+            v = fn([circ, cub, src], obs)[2]
+        elif form == "two_customs":
+            v = fn([src, src.copy(position=(9, 9, 9)), circ], obs)[0]
+        else:
+            far = fn([cub, circ], obs, sumup=True)
+            v = fn([src, cub, circ], obs, sumup=True) - far
+        out[f] = np.asarray(v).reshape(-1, 3)
+    problems = []
+    tol = 1e-9 if form == "sumup" else 1e-12
+    for f in "BHJM":
+        exp = Rm.apply(_custom_sphere(f, local))
+        sc = np.max(np.abs(exp))
+        err = np.max(np.abs(out[f] - exp)) / sc
+        if not err <= tol:
+            problems.append((f"custom-{f}-not-the-function-value|{form}", f"rel={err:.3g}", None))
+    B, H, J, M = (out[f] for f in "BHJM")
+    res = np.max(np.linalg.norm(B - mu0 * H - J, axis=1)) / np.max(np.linalg.norm(B, axis=1))
+    if not res <= max(tol, 1e-12):
+        problems.append((f"custom-B-mu0H-J|{form}", f"rel={res:.3g}", None))
+    res2 = np.max(np.linalg.norm(J - mu0 * M, axis=1)) / np.max(np.linalg.norm(J, axis=1))
+    if not res2 <= max(tol, 1e-12):
+        problems.append((f"custom-J-mu0M|{form}", f"rel={res2:.3g}", None))
+    ins = np.linalg.norm(local, axis=1) < CUSTOM_R
+    return {"rows": len(local), "problems": problems, "n_inside": int(ins.sum()), "n_surface": 0}
+
+
 def work(c):
     try:
         if c["part"] == "batch":
             return run_batch(c)
+        if c["part"] == "custom":
+            return run_custom(c)
         if c["part"] == "field":
             return run_case(c)
         return {"rows": 1, "problems": [(k, d, None) for k, d in run_attr(c)]}
@@ -350,6 +427,9 @@ def enumerate_cases(tier):
                      "ctor_pol_mutate_input", "set_pol_mutate_input", "ctor_mag_mutate_input", "set_mag_mutate_input"):
             for val in ((0.2, -0.3, 0.9), (0, 0, 0), (1e-12, 0, 2e-12), (1e12, -3e12, 2e12), (0, 0, 1.0)):
                 cases.append({"part": "attr", "cls": cls, "form": form, "value": list(val)})
+    for form in CUSTOM_FORMS:
+        for po in range(len(POSES)):
+            cases.append({"part": "custom", "form": form, "pose": po})
     import itertools
 
     for n in (2, 3):
@@ -370,7 +450,7 @@ def run(tier, seed):
         if r.get("harness"):
             harness.append(f"{c}: {r['harness']}")
             continue
-        rows += r["rows"] * (4 if c["part"] == "field" else 1)
+        rows += r["rows"] * (4 if c["part"] in ("field", "custom") else 1)
         if c["part"] == "batch":
             for kind, detail, loc in r["problems"]:
                 viols.append({"key": f"C02|batch|{kind}|{'+'.join(sorted(set(c['kinds'])))}", "what": f"{c}: {kind}: {detail}", "case": c,
@@ -380,7 +460,9 @@ def run(tier, seed):
         nins += r.get("n_inside", 0)
         nnonfin += r.get("n_nonfinite", 0)
         for kind, detail, loc in r["problems"]:
-            if c["part"] == "field":
+            if c["part"] == "custom":
+                key = f"C02|CustomSource|{kind}"
+            elif c["part"] == "field":
                 key = f"C02|{c['cls']}|regime={c['regime']}|{kind}"
             else:
                 key = f"C02|attr|{kind}|{c['cls']}"
